@@ -191,6 +191,99 @@ class _Rename(ast.NodeTransformer):
         return node
 
 
+class _FlipIf(ast.NodeTransformer):
+    """`if c: A else: B`  ->  `if not c: B else: A` (both branches present)"""
+
+    def visit_If(self, node: ast.If):
+        self.generic_visit(node)
+        if node.orelse and node.body:
+            test = node.test.operand if isinstance(node.test, ast.UnaryOp) and isinstance(node.test.op, ast.Not) else ast.UnaryOp(ast.Not(), node.test)
+            return ast.copy_location(ast.If(test, node.orelse, node.body), node)
+        return node
+
+    def visit_IfExp(self, node: ast.IfExp):
+        self.generic_visit(node)
+        return ast.copy_location(ast.IfExp(ast.UnaryOp(ast.Not(), node.test), node.orelse, node.body), node)
+
+
+class _TempReturn(ast.NodeTransformer):
+    """`return e`  ->  `result_tmp = e; return result_tmp`"""
+
+    def _block(self, stmts):
+        out = []
+        for s_ in stmts:
+            s_ = self.visit(s_)
+            if isinstance(s_, ast.Return) and s_.value is not None and not isinstance(s_.value, (ast.Name, ast.Constant)):
+                out.append(ast.copy_location(ast.Assign([ast.Name('result_tmp', ast.Store())], s_.value), s_))
+                out.append(ast.copy_location(ast.Return(ast.Name('result_tmp', ast.Load())), s_))
+            else:
+                out.append(s_)
+        return out
+
+    def generic_visit(self, node):
+        for f in ('body', 'orelse', 'finalbody'):
+            v = getattr(node, f, None)
+            if isinstance(v, list) and v and isinstance(v[0], ast.stmt):
+                setattr(node, f, self._block(v))
+        for h in getattr(node, 'handlers', []) or []:
+            h.body = self._block(h.body)
+        return node
+
+    def visit_Lambda(self, node):
+        return node
+
+
+class _FlipCompare(ast.NodeTransformer):
+    """`a < b` -> `b > a`, `a <= b` -> `b >= a`, `a == b` -> `b == a` (single comparisons, neither side a call with effects)"""
+    FLIP = {ast.Lt: ast.Gt, ast.Gt: ast.Lt, ast.LtE: ast.GtE, ast.GtE: ast.LtE, ast.Eq: ast.Eq, ast.NotEq: ast.NotEq}
+
+    def visit_Compare(self, node: ast.Compare):
+        self.generic_visit(node)
+        if len(node.ops) == 1 and type(node.ops[0]) in self.FLIP and not any(isinstance(n, ast.Call) for n in ast.walk(node)):
+            return ast.copy_location(ast.Compare(node.comparators[0], [self.FLIP[type(node.ops[0])]()], [node.left]), node)
+        return node
+
+
+class _ConstCommute(ast.NodeTransformer):
+    """`e + c` -> `c + e`, `e * c` -> `c * e` for a numeric literal c (and the reverse)"""
+
+    def visit_BinOp(self, node: ast.BinOp):
+        self.generic_visit(node)
+        def num(n):
+            return isinstance(n, ast.Constant) and isinstance(n.value, (int, float)) and not isinstance(n.value, bool)
+        if isinstance(node.op, (ast.Add, ast.Mult)) and (num(node.left) != num(node.right)):
+            return ast.copy_location(ast.BinOp(node.right, node.op, node.left), node)
+        return node
+
+
+class _DeMorgan(ast.NodeTransformer):
+    """in test position: `a and b` -> `not (not a or not b)`, `a or b` -> `not (not a and not b)`"""
+
+    def _t(self, test):
+        if isinstance(test, ast.BoolOp) and not any(isinstance(n, ast.NamedExpr) for n in ast.walk(test)):
+            other = ast.Or() if isinstance(test.op, ast.And) else ast.And()
+            return ast.UnaryOp(ast.Not(), ast.BoolOp(other, [ast.UnaryOp(ast.Not(), v) for v in test.values]))
+        return test
+
+    def visit_If(self, node):
+        self.generic_visit(node)
+        node.test = self._t(node.test)
+        return node
+
+    def visit_While(self, node):
+        self.generic_visit(node)
+        node.test = self._t(node.test)
+        return node
+
+    def visit_IfExp(self, node):
+        self.generic_visit(node)
+        node.test = self._t(node.test)
+        return node
+
+
+COMPUTED = {'flip-if': _FlipIf, 'temp-return': _TempReturn, 'flip-compare': _FlipCompare, 'const-commute': _ConstCommute, 'demorgan': _DeMorgan}
+
+
 def computed_variant(kind: str, root: str):
     src = os.path.join(root, 'src', 'traffic_weaver')
     for dp, dn, fns in os.walk(src):
@@ -208,6 +301,9 @@ def computed_variant(kind: str, root: str):
                     elif isinstance(n, ast.Assign):
                         names |= {t.id for t in n.targets if isinstance(t, ast.Name)}
                 tree = _Rename(names).visit(tree)
+                ast.fix_missing_locations(tree)
+            elif kind in COMPUTED:
+                tree = COMPUTED[kind]().visit(tree)
                 ast.fix_missing_locations(tree)
             open(p, 'w', encoding='utf-8').write(ast.unparse(tree) + '\n')
 
@@ -284,7 +380,7 @@ def run_for_property(pid: str, root: str, jobs: int, ctx) -> dict:
         if pid not in exc and relevant:
             work.append((vid, 'patch', path, pid, root))
             expect[vid] = 'silent'
-    for kind in ('ast-roundtrip', 'rename-locals'):
+    for kind in ('ast-roundtrip', 'rename-locals') + tuple(COMPUTED):
         work.append((f"computed:{kind}", 'computed', kind, pid, root))
         expect[f"computed:{kind}"] = 'silent'
     results = []
